@@ -100,6 +100,23 @@ func (t Tamper) apply(m *sim.Msg, from *sim.Party, other *sim.Net, ap *Applied) 
 		out.Data = append([]byte{}, src.Data...)
 		ap.Generic, ap.LeafKind = "(whole message)", "message"
 		return out
+	case "substitute-other-sender":
+		// an honest party's message of the same round and kind, re-sent by the cheater under its own name
+		for _, p := range other.Parties {
+			if p.Name == from.Name {
+				continue
+			}
+			to := ""
+			if !m.Broadcast {
+				to = string(m.To)
+			}
+			if src := find(other, p.Name, t.Round, m.Broadcast, to, ""); src != nil {
+				out.Data = append([]byte{}, src.Data...)
+				ap.Generic, ap.LeafKind = "(whole message of "+p.Name+")", "message"
+				return out
+			}
+		}
+		return nil
 	case "substitute-other-round":
 		// the content of the cheater's message of the same kind from the previous round that has one
 		for r := t.Round - 1; r >= 2; r-- {
